@@ -87,6 +87,11 @@ def setup_process():
     import warnings
     warnings.filterwarnings("ignore")
     try:
+        import tqdm
+        tqdm.tqdm.monitor_interval = 0      # no monitor thread: it would be a real thread outside the scheduler
+    except Exception:
+        pass
+    try:
         from toasty import par_util
         par_util.SHOW_INFORMATIONAL_MESSAGES = False
     except Exception:
